@@ -180,7 +180,7 @@ def leg_b(rep, tier, seed):
     evs = []
     for rparts, dt, mt, order, doc in pathdrv.random_cases(rng, 700 * n, True):
         try:
-            evs.append(pathdrv.get_event(len(evs) + 1, rparts, dt, mt, order, doc, rng.choice(pathdrv.ENTRIES[:3])))
+            evs.append(pathdrv.get_event(len(evs) + 1, rparts, dt, mt, order, doc, rng.choice(pathdrv.ENTRIES)))
         except (Unencodable, TypeError, ValueError):
             continue
     res = tlc.accept("Trace_Path", "Trace_Path.cfg", evs, env={"VERIF_PROP": "C08"})
